@@ -46,3 +46,5 @@ pub async fn yield_point(name: &'static str) {
         g.at(name).await;
     }
 }
+
+pub use crate::fair_queue::verif_probe::{FairQueueProbe, ProbeHandle, Snapshot};
